@@ -557,47 +557,52 @@ pub fn join(toks: &[GTok]) -> String {
 // layout perturbation (C26a)
 
 const COMMENT_WORDS: &[&str] = &[
-    "c", "x y", "=> ;", "}", "{", ")", "\"", "'", "r#\"", "<>", "grammar;", "pub X = Y;", "*", "/", "#![a]", "use foo;", "'a", "é",
+    "c", "x y", "=> ;", "}", "{", ")", "\"", "'", "r#\"", "grammar;", "pub X = Y;", "*", "/", "#![a]", "use foo;", "'a", "é",
     "match { _ }", ",", "(", "[", "]", "=>@L", "\\", "`",
 ];
 
-fn comment_body(t: &mut Tape) -> String {
+fn comment_body(t: &mut Tape, code_adjacent: bool) -> String {
     let n = t.range(0, 2);
     let mut s = String::new();
     for i in 0..=n {
         if i > 0 {
             s.push(' ');
         }
-        s.push_str(*t.pick(COMMENT_WORDS));
+        let w = *t.pick(COMMENT_WORDS);
+        // a comment next to a code block becomes part of the embedded Rust, where LALRPOP looks
+        // for `<>` with a textual heuristic that counts double quotes: keep quotes out of those
+        s.push_str(if code_adjacent && w.contains('"') { "q" } else { w });
     }
     s
 }
 
 /// a random non-empty separator: whitespace and comments. `//` comments are
 /// always closed by a newline.
-fn separator(t: &mut Tape) -> String {
+fn separator(t: &mut Tape, mode: u8) -> String {
+    // mode 0: anywhere; 1: next to a code block (no quotes in comments); 2: whitespace only
     let mut s = String::new();
     let parts = t.range(1, 3);
     for _ in 0..parts {
-        match t.weighted(&[6, 3, 2, 2, 3, 2, 1, 1]) {
+        let ws_only: [u32; 8] = [6, 3, 2, 2, 0, 0, 0, 0];
+        match t.weighted(if mode == 2 { &ws_only } else { &[6, 3, 2, 2, 3, 2, 1, 1] }) {
             0 => s.push(' '),
             1 => s.push('\n'),
             2 => s.push_str("\t "),
             3 => s.push_str("\r\n"),
             4 => {
-                s.push_str("/*");
-                s.push_str(&comment_body(t).replace("*/", "* /").replace("/*", "/ *"));
-                s.push_str("*/");
+                s.push_str("/* ");
+                s.push_str(&comment_body(t, mode == 1).replace("*/", "* /").replace("/*", "/ *"));
+                s.push_str(" */");
             }
             5 => {
-                s.push_str("//");
-                s.push_str(&comment_body(t));
+                s.push_str("// ");
+                s.push_str(&comment_body(t, mode == 1));
                 s.push('\n');
             }
             6 => {
                 // nested block comment
                 s.push_str("/* a /* ");
-                s.push_str(&comment_body(t).replace("*/", "* /").replace("/*", "/ *"));
+                s.push_str(&comment_body(t, mode == 1).replace("*/", "* /").replace("/*", "/ *"));
                 s.push_str(" */ b */");
             }
             _ => s.push_str("/**/"),
@@ -635,7 +640,7 @@ fn can_glue(a: &GTok, b: &GTok) -> bool {
 pub fn layout(toks: &[GTok], t: &mut Tape) -> String {
     let mut s = String::new();
     if t.chance(96) {
-        s.push_str(&separator(t));
+        s.push_str(&separator(t, 0));
     }
     for (i, tok) in toks.iter().enumerate() {
         s.push_str(&tok.text);
@@ -643,9 +648,19 @@ pub fn layout(toks: &[GTok], t: &mut Tape) -> String {
             break;
         }
         let next = &toks[i + 1];
+        // separator vocabulary: next to a code block comments become part of the embedded Rust;
+        // next to the code `()` (which LALRPOP elides from the action body) only whitespace
+        let unit = |k: &GTok| k.kind == TK::Code && k.text == "()";
+        let mode: u8 = if unit(tok) || unit(next) {
+            2
+        } else if tok.kind == TK::Code || next.kind == TK::Code {
+            1
+        } else {
+            0
+        };
         if tok.kind == TK::Ident && next.text == "<" {
             if !tok.glued {
-                s.push_str(&separator(t));
+                s.push_str(&separator(t, mode));
             }
             continue;
         }
@@ -661,16 +676,16 @@ pub fn layout(toks: &[GTok], t: &mut Tape) -> String {
             s.push('\n');
         }
         if must_sep && !needs_nl {
-            s.push_str(&separator(t));
+            s.push_str(&separator(t, mode));
         } else {
             match t.weighted(&[3, 5]) {
                 0 => {}
-                _ => s.push_str(&separator(t)),
+                _ => s.push_str(&separator(t, mode)),
             }
         }
     }
     if t.chance(128) {
-        s.push_str(&separator(t));
+        s.push_str(&separator(t, 0));
     }
     s
 }
